@@ -22,6 +22,7 @@ structure Inv3 (cfg : Cfg) (s : State) : Prop where
     s.batchCClosed = true ∧ s.cClosed = true ∧ flat s.delivered = s.pulled
   r2 : .endOK ∈ s.results → s.srcTerm = some .eof
   r3 : .srcErr ∈ s.results → s.srcTerm = some .err
+  d_end2 : ∀ d ∈ s.delivered, d.reason = .srcEnd → s.srcTerm ≠ none
 
 theorem inv3_init (cfg : Cfg) : Inv3 cfg init := by
   constructor <;> simp [init]
@@ -32,112 +33,112 @@ theorem inv3_srcRet {cfg : Cfg} {s s' : State} (ev : _) (h1' : Inv1 cfg s) (h2' 
     (h : step good cfg s (.srcRet ev) = some s') : Inv3 cfg s' := by
   obtain ⟨c1, t1a, t_set, t_ne, t_len, t_armed, t_fired, n1, n2, u0, u3, u1⟩ := h1'
   obtain ⟨a1, a2, g1, d_ne, d_wait, d_full, d_end, u2, u4, u5⟩ := h2'
-  obtain ⟨e1, e2, e2b, e2c, e3, e3b, e3c, e4, h1, h2, h3, r1, r2, r3⟩ := hi
+  obtain ⟨e1, e2, e2b, e2c, e3, e3b, e3c, e4, h1, h2, h3, r1, r2, r3, d_end2⟩ := hi
   unfold_step at h <;> (repeat' split at h) <;> cases h <;> close_inv3
 
 theorem inv3_nextCall {cfg : Cfg} {s s' : State} (live : _) (h1' : Inv1 cfg s) (h2' : Inv2 cfg s) (hi : Inv3 cfg s)
     (h : step good cfg s (.nextCall live) = some s') : Inv3 cfg s' := by
   obtain ⟨c1, t1a, t_set, t_ne, t_len, t_armed, t_fired, n1, n2, u0, u3, u1⟩ := h1'
   obtain ⟨a1, a2, g1, d_ne, d_wait, d_full, d_end, u2, u4, u5⟩ := h2'
-  obtain ⟨e1, e2, e2b, e2c, e3, e3b, e3c, e4, h1, h2, h3, r1, r2, r3⟩ := hi
+  obtain ⟨e1, e2, e2b, e2c, e3, e3b, e3c, e4, h1, h2, h3, r1, r2, r3, d_end2⟩ := hi
   unfold_step at h <;> (repeat' split at h) <;> cases h <;> close_inv3
 
 theorem inv3_ctxExpire {cfg : Cfg} {s s' : State} (h1' : Inv1 cfg s) (h2' : Inv2 cfg s) (hi : Inv3 cfg s)
     (h : step good cfg s (.ctxExpire) = some s') : Inv3 cfg s' := by
   obtain ⟨c1, t1a, t_set, t_ne, t_len, t_armed, t_fired, n1, n2, u0, u3, u1⟩ := h1'
   obtain ⟨a1, a2, g1, d_ne, d_wait, d_full, d_end, u2, u4, u5⟩ := h2'
-  obtain ⟨e1, e2, e2b, e2c, e3, e3b, e3c, e4, h1, h2, h3, r1, r2, r3⟩ := hi
+  obtain ⟨e1, e2, e2b, e2c, e3, e3b, e3c, e4, h1, h2, h3, r1, r2, r3, d_end2⟩ := hi
   unfold_step at h <;> (repeat' split at h) <;> cases h <;> close_inv3
 
 theorem inv3_tick {cfg : Cfg} {s s' : State} (d : _) (h1' : Inv1 cfg s) (h2' : Inv2 cfg s) (hi : Inv3 cfg s)
     (h : step good cfg s (.tick d) = some s') : Inv3 cfg s' := by
   obtain ⟨c1, t1a, t_set, t_ne, t_len, t_armed, t_fired, n1, n2, u0, u3, u1⟩ := h1'
   obtain ⟨a1, a2, g1, d_ne, d_wait, d_full, d_end, u2, u4, u5⟩ := h2'
-  obtain ⟨e1, e2, e2b, e2c, e3, e3b, e3c, e4, h1, h2, h3, r1, r2, r3⟩ := hi
+  obtain ⟨e1, e2, e2b, e2c, e3, e3b, e3c, e4, h1, h2, h3, r1, r2, r3, d_end2⟩ := hi
   unfold_step at h <;> (repeat' split at h) <;> cases h <;> close_inv3
 
 theorem inv3_close {cfg : Cfg} {s s' : State} (h1' : Inv1 cfg s) (h2' : Inv2 cfg s) (hi : Inv3 cfg s)
     (h : step good cfg s (.close) = some s') : Inv3 cfg s' := by
   obtain ⟨c1, t1a, t_set, t_ne, t_len, t_armed, t_fired, n1, n2, u0, u3, u1⟩ := h1'
   obtain ⟨a1, a2, g1, d_ne, d_wait, d_full, d_end, u2, u4, u5⟩ := h2'
-  obtain ⟨e1, e2, e2b, e2c, e3, e3b, e3c, e4, h1, h2, h3, r1, r2, r3⟩ := hi
+  obtain ⟨e1, e2, e2b, e2c, e3, e3b, e3c, e4, h1, h2, h3, r1, r2, r3, d_end2⟩ := hi
   unfold_step at h <;> (repeat' split at h) <;> cases h <;> close_inv3
 
 theorem inv3_prodCancelled {cfg : Cfg} {s s' : State} (h1' : Inv1 cfg s) (h2' : Inv2 cfg s) (hi : Inv3 cfg s)
     (h : step good cfg s (.prodCancelled) = some s') : Inv3 cfg s' := by
   obtain ⟨c1, t1a, t_set, t_ne, t_len, t_armed, t_fired, n1, n2, u0, u3, u1⟩ := h1'
   obtain ⟨a1, a2, g1, d_ne, d_wait, d_full, d_end, u2, u4, u5⟩ := h2'
-  obtain ⟨e1, e2, e2b, e2c, e3, e3b, e3c, e4, h1, h2, h3, r1, r2, r3⟩ := hi
+  obtain ⟨e1, e2, e2b, e2c, e3, e3b, e3c, e4, h1, h2, h3, r1, r2, r3, d_end2⟩ := hi
   unfold_step at h <;> (repeat' split at h) <;> cases h <;> close_inv3
 
 theorem inv3_prodSend {cfg : Cfg} {s s' : State} (h1' : Inv1 cfg s) (h2' : Inv2 cfg s) (hi : Inv3 cfg s)
     (h : step good cfg s (.prodSend) = some s') : Inv3 cfg s' := by
   obtain ⟨c1, t1a, t_set, t_ne, t_len, t_armed, t_fired, n1, n2, u0, u3, u1⟩ := h1'
   obtain ⟨a1, a2, g1, d_ne, d_wait, d_full, d_end, u2, u4, u5⟩ := h2'
-  obtain ⟨e1, e2, e2b, e2c, e3, e3b, e3c, e4, h1, h2, h3, r1, r2, r3⟩ := hi
+  obtain ⟨e1, e2, e2b, e2c, e3, e3b, e3c, e4, h1, h2, h3, r1, r2, r3, d_end2⟩ := hi
   unfold_step at h <;> (repeat' split at h) <;> cases h <;> close_inv3
 
 theorem inv3_prodSendCancel {cfg : Cfg} {s s' : State} (h1' : Inv1 cfg s) (h2' : Inv2 cfg s) (hi : Inv3 cfg s)
     (h : step good cfg s (.prodSendCancel) = some s') : Inv3 cfg s' := by
   obtain ⟨c1, t1a, t_set, t_ne, t_len, t_armed, t_fired, n1, n2, u0, u3, u1⟩ := h1'
   obtain ⟨a1, a2, g1, d_ne, d_wait, d_full, d_end, u2, u4, u5⟩ := h2'
-  obtain ⟨e1, e2, e2b, e2c, e3, e3b, e3c, e4, h1, h2, h3, r1, r2, r3⟩ := hi
+  obtain ⟨e1, e2, e2b, e2c, e3, e3b, e3c, e4, h1, h2, h3, r1, r2, r3, d_end2⟩ := hi
   unfold_step at h <;> (repeat' split at h) <;> cases h <;> close_inv3
 
 theorem inv3_prodCloseC {cfg : Cfg} {s s' : State} (h1' : Inv1 cfg s) (h2' : Inv2 cfg s) (hi : Inv3 cfg s)
     (h : step good cfg s (.prodCloseC) = some s') : Inv3 cfg s' := by
   obtain ⟨c1, t1a, t_set, t_ne, t_len, t_armed, t_fired, n1, n2, u0, u3, u1⟩ := h1'
   obtain ⟨a1, a2, g1, d_ne, d_wait, d_full, d_end, u2, u4, u5⟩ := h2'
-  obtain ⟨e1, e2, e2b, e2c, e3, e3b, e3c, e4, h1, h2, h3, r1, r2, r3⟩ := hi
+  obtain ⟨e1, e2, e2b, e2c, e3, e3b, e3c, e4, h1, h2, h3, r1, r2, r3, d_end2⟩ := hi
   unfold_step at h <;> (repeat' split at h) <;> cases h <;> close_inv3
 
 theorem inv3_prodCloseSrc {cfg : Cfg} {s s' : State} (h1' : Inv1 cfg s) (h2' : Inv2 cfg s) (hi : Inv3 cfg s)
     (h : step good cfg s (.prodCloseSrc) = some s') : Inv3 cfg s' := by
   obtain ⟨c1, t1a, t_set, t_ne, t_len, t_armed, t_fired, n1, n2, u0, u3, u1⟩ := h1'
   obtain ⟨a1, a2, g1, d_ne, d_wait, d_full, d_end, u2, u4, u5⟩ := h2'
-  obtain ⟨e1, e2, e2b, e2c, e3, e3b, e3c, e4, h1, h2, h3, r1, r2, r3⟩ := hi
+  obtain ⟨e1, e2, e2b, e2c, e3, e3b, e3c, e4, h1, h2, h3, r1, r2, r3, d_end2⟩ := hi
   unfold_step at h <;> (repeat' split at h) <;> cases h <;> close_inv3
 
 theorem inv3_fullRet {cfg : Cfg} {s s' : State} (b : _) (h1' : Inv1 cfg s) (h2' : Inv2 cfg s) (hi : Inv3 cfg s)
     (h : step good cfg s (.fullRet b) = some s') : Inv3 cfg s' := by
   obtain ⟨c1, t1a, t_set, t_ne, t_len, t_armed, t_fired, n1, n2, u0, u3, u1⟩ := h1'
   obtain ⟨a1, a2, g1, d_ne, d_wait, d_full, d_end, u2, u4, u5⟩ := h2'
-  obtain ⟨e1, e2, e2b, e2c, e3, e3b, e3c, e4, h1, h2, h3, r1, r2, r3⟩ := hi
+  obtain ⟨e1, e2, e2b, e2c, e3, e3b, e3c, e4, h1, h2, h3, r1, r2, r3, d_end2⟩ := hi
   unfold_step at h <;> (repeat' split at h) <;> cases h <;> close_inv3
 
 theorem inv3_recvCClosed {cfg : Cfg} {s s' : State} (h1' : Inv1 cfg s) (h2' : Inv2 cfg s) (hi : Inv3 cfg s)
     (h : step good cfg s (.recvCClosed) = some s') : Inv3 cfg s' := by
   obtain ⟨c1, t1a, t_set, t_ne, t_len, t_armed, t_fired, n1, n2, u0, u3, u1⟩ := h1'
   obtain ⟨a1, a2, g1, d_ne, d_wait, d_full, d_end, u2, u4, u5⟩ := h2'
-  obtain ⟨e1, e2, e2b, e2c, e3, e3b, e3c, e4, h1, h2, h3, r1, r2, r3⟩ := hi
+  obtain ⟨e1, e2, e2b, e2c, e3, e3b, e3c, e4, h1, h2, h3, r1, r2, r3, d_end2⟩ := hi
   unfold_step at h <;> (repeat' split at h) <;> cases h <;> close_inv3
 
 theorem inv3_recvTimer {cfg : Cfg} {s s' : State} (h1' : Inv1 cfg s) (h2' : Inv2 cfg s) (hi : Inv3 cfg s)
     (h : step good cfg s (.recvTimer) = some s') : Inv3 cfg s' := by
   obtain ⟨c1, t1a, t_set, t_ne, t_len, t_armed, t_fired, n1, n2, u0, u3, u1⟩ := h1'
   obtain ⟨a1, a2, g1, d_ne, d_wait, d_full, d_end, u2, u4, u5⟩ := h2'
-  obtain ⟨e1, e2, e2b, e2c, e3, e3b, e3c, e4, h1, h2, h3, r1, r2, r3⟩ := hi
+  obtain ⟨e1, e2, e2b, e2c, e3, e3b, e3c, e4, h1, h2, h3, r1, r2, r3, d_end2⟩ := hi
   unfold_step at h <;> (repeat' split at h) <;> cases h <;> close_inv3
 
 theorem inv3_flushAbort {cfg : Cfg} {s s' : State} (h1' : Inv1 cfg s) (h2' : Inv2 cfg s) (hi : Inv3 cfg s)
     (h : step good cfg s (.flushAbort) = some s') : Inv3 cfg s' := by
   obtain ⟨c1, t1a, t_set, t_ne, t_len, t_armed, t_fired, n1, n2, u0, u3, u1⟩ := h1'
   obtain ⟨a1, a2, g1, d_ne, d_wait, d_full, d_end, u2, u4, u5⟩ := h2'
-  obtain ⟨e1, e2, e2b, e2c, e3, e3b, e3c, e4, h1, h2, h3, r1, r2, r3⟩ := hi
+  obtain ⟨e1, e2, e2b, e2c, e3, e3b, e3c, e4, h1, h2, h3, r1, r2, r3, d_end2⟩ := hi
   unfold_step at h <;> (repeat' split at h) <;> cases h <;> close_inv3
 
 theorem inv3_batchExit {cfg : Cfg} {s s' : State} (h1' : Inv1 cfg s) (h2' : Inv2 cfg s) (hi : Inv3 cfg s)
     (h : step good cfg s (.batchExit) = some s') : Inv3 cfg s' := by
   obtain ⟨c1, t1a, t_set, t_ne, t_len, t_armed, t_fired, n1, n2, u0, u3, u1⟩ := h1'
   obtain ⟨a1, a2, g1, d_ne, d_wait, d_full, d_end, u2, u4, u5⟩ := h2'
-  obtain ⟨e1, e2, e2b, e2c, e3, e3b, e3c, e4, h1, h2, h3, r1, r2, r3⟩ := hi
+  obtain ⟨e1, e2, e2b, e2c, e3, e3b, e3c, e4, h1, h2, h3, r1, r2, r3, d_end2⟩ := hi
   unfold_step at h <;> (repeat' split at h) <;> cases h <;> close_inv3
 
 theorem inv3_announce {cfg : Cfg} {s s' : State} (h1' : Inv1 cfg s) (h2' : Inv2 cfg s) (hi : Inv3 cfg s)
     (h : step good cfg s (.announce) = some s') : Inv3 cfg s' := by
   obtain ⟨c1, t1a, t_set, t_ne, t_len, t_armed, t_fired, n1, n2, u0, u3, u1⟩ := h1'
   obtain ⟨a1, a2, g1, d_ne, d_wait, d_full, d_end, u2, u4, u5⟩ := h2'
-  obtain ⟨e1, e2, e2b, e2c, e3, e3b, e3c, e4, h1, h2, h3, r1, r2, r3⟩ := hi
+  obtain ⟨e1, e2, e2b, e2c, e3, e3b, e3c, e4, h1, h2, h3, r1, r2, r3, d_end2⟩ := hi
   unfold_step at h <;> (repeat' split at h) <;> cases h <;> close_inv3
 
 set_option maxHeartbeats 1600000 in
@@ -145,35 +146,35 @@ theorem inv3_deliver {cfg : Cfg} {s s' : State} (h1' : Inv1 cfg s) (h2' : Inv2 c
     (h : step good cfg s (.deliver) = some s') : Inv3 cfg s' := by
   obtain ⟨c1, t1a, t_set, t_ne, t_len, t_armed, t_fired, n1, n2, u0, u3, u1⟩ := h1'
   obtain ⟨a1, a2, g1, d_ne, d_wait, d_full, d_end, u2, u4, u5⟩ := h2'
-  obtain ⟨e1, e2, e2b, e2c, e3, e3b, e3c, e4, h1, h2, h3, r1, r2, r3⟩ := hi
+  obtain ⟨e1, e2, e2b, e2c, e3, e3b, e3c, e4, h1, h2, h3, r1, r2, r3, d_end2⟩ := hi
   unfold_step at h <;> (repeat' split at h) <;> cases h <;> close_inv3
 
 theorem inv3_consClosed {cfg : Cfg} {s s' : State} (h1' : Inv1 cfg s) (h2' : Inv2 cfg s) (hi : Inv3 cfg s)
     (h : step good cfg s (.consClosed) = some s') : Inv3 cfg s' := by
   obtain ⟨c1, t1a, t_set, t_ne, t_len, t_armed, t_fired, n1, n2, u0, u3, u1⟩ := h1'
   obtain ⟨a1, a2, g1, d_ne, d_wait, d_full, d_end, u2, u4, u5⟩ := h2'
-  obtain ⟨e1, e2, e2b, e2c, e3, e3b, e3c, e4, h1, h2, h3, r1, r2, r3⟩ := hi
+  obtain ⟨e1, e2, e2b, e2c, e3, e3b, e3c, e4, h1, h2, h3, r1, r2, r3, d_end2⟩ := hi
   unfold_step at h <;> (repeat' split at h) <;> cases h <;> close_inv3
 
 theorem inv3_consCtx {cfg : Cfg} {s s' : State} (h1' : Inv1 cfg s) (h2' : Inv2 cfg s) (hi : Inv3 cfg s)
     (h : step good cfg s (.consCtx) = some s') : Inv3 cfg s' := by
   obtain ⟨c1, t1a, t_set, t_ne, t_len, t_armed, t_fired, n1, n2, u0, u3, u1⟩ := h1'
   obtain ⟨a1, a2, g1, d_ne, d_wait, d_full, d_end, u2, u4, u5⟩ := h2'
-  obtain ⟨e1, e2, e2b, e2c, e3, e3b, e3c, e4, h1, h2, h3, r1, r2, r3⟩ := hi
+  obtain ⟨e1, e2, e2b, e2c, e3, e3b, e3c, e4, h1, h2, h3, r1, r2, r3, d_end2⟩ := hi
   unfold_step at h <;> (repeat' split at h) <;> cases h <;> close_inv3
 
 theorem inv3_timerExpire {cfg : Cfg} {s s' : State} (h1' : Inv1 cfg s) (h2' : Inv2 cfg s) (hi : Inv3 cfg s)
     (h : step good cfg s (.timerExpire) = some s') : Inv3 cfg s' := by
   obtain ⟨c1, t1a, t_set, t_ne, t_len, t_armed, t_fired, n1, n2, u0, u3, u1⟩ := h1'
   obtain ⟨a1, a2, g1, d_ne, d_wait, d_full, d_end, u2, u4, u5⟩ := h2'
-  obtain ⟨e1, e2, e2b, e2c, e3, e3b, e3c, e4, h1, h2, h3, r1, r2, r3⟩ := hi
+  obtain ⟨e1, e2, e2b, e2c, e3, e3b, e3c, e4, h1, h2, h3, r1, r2, r3, d_end2⟩ := hi
   unfold_step at h <;> (repeat' split at h) <;> cases h <;> close_inv3
 
 theorem inv3_closeReturn {cfg : Cfg} {s s' : State} (h1' : Inv1 cfg s) (h2' : Inv2 cfg s) (hi : Inv3 cfg s)
     (h : step good cfg s (.closeReturn) = some s') : Inv3 cfg s' := by
   obtain ⟨c1, t1a, t_set, t_ne, t_len, t_armed, t_fired, n1, n2, u0, u3, u1⟩ := h1'
   obtain ⟨a1, a2, g1, d_ne, d_wait, d_full, d_end, u2, u4, u5⟩ := h2'
-  obtain ⟨e1, e2, e2b, e2c, e3, e3b, e3c, e4, h1, h2, h3, r1, r2, r3⟩ := hi
+  obtain ⟨e1, e2, e2b, e2c, e3, e3b, e3c, e4, h1, h2, h3, r1, r2, r3, d_end2⟩ := hi
   unfold_step at h <;> (repeat' split at h) <;> cases h <;> close_inv3
 
 theorem inv3_step {cfg : Cfg} {s s' : State} {l : Label} (h1' : Inv1 cfg s) (h2' : Inv2 cfg s) (hi : Inv3 cfg s)
